@@ -5,6 +5,31 @@ V = os.path.dirname(os.path.dirname(os.path.abspath(__file__)))
 ALL = ["C%02d" % i for i in range(1, 21)]
 
 CLAIMED = {
+ "C04": dict(
+   level="exploration",
+   text="Full-grammar documents (every element kind and attribute combination the reader knows, opaque expression texts needing XML escaping) are rendered twice with independent lexical choices (whitespace, comments, quoting, attribute order, character/entity references, CDATA, namespace prefix, start/end tag for empty elements, initial attribute vs <initial>, descriptor spelling, XInclude of text fragments); the by-name dump of the parsed model must equal the dump computed from the AST, both renderings must give equal dumps, parsing must be deterministic and must not panic.",
+   design="6/C04",
+   note="Trusted: harness/src/dump.rs (model side), astdump.rs (document side), render.rs (a correct XML serialiser). Generated ids are excluded from 'mirrors'.",
+   technique="property-based round-trip/differential testing (AST -> text -> model -> dump) + metamorphic relation over lexical renderings"),
+ "C05": dict(
+   level="exploration",
+   text="Write -> read -> raw dump equality on models parsed from full-grammar documents and then mutated through public fields (id bijections anchored at nibble-width boundaries, monotone document ids, delays from the u64 edge set, strings of boundary lengths with multi-byte UTF-8, nested Data values); behavioural equality (identical projected traces of original and reloaded machine on generated events); primitive level round trips incl. an exhaustive sweep of 2^k-1, 2^k, 2^k+1.",
+   design="6/C05",
+   note="Fields that are not persisted by design are not compared. Behavioural part uses the executable-document generator (<= 14 states).",
+   technique="property-based round-trip testing (structural, behavioural, primitive) with boundary-value generators"),
+ "C18": dict(
+   level="fault_enumeration",
+   text="Per generated image, exhaustively: every strict prefix must be rejected by FsmReader::read with Err (no Ok, no panic); the writer against sinks that accept 1, 2, 3, 7 or k bytes per call must still emit the complete image without error flag; the failure of the i-th write call, for every i, and of flush must be visible in has_error().",
+   design="6/C18",
+   note="Exhaustive over the fault positions of each image; the images themselves are sampled (48 quick / 1500 thorough). Bit-flipped images are out of scope.",
+   technique="fault injection enumerated over every cut point / failing call of generated images"),
+ "C19": dict(
+   level="exploration",
+   text="Probe documents with k parallel regions (descriptor list -> hit mark, * -> miss mark) test k descriptor lists per host event; names and descriptors over an alphabet with shared character prefixes, case variants, multi-byte and empty tokens; oracle = reference interpreter's token-prefix matcher (trace equality). Plus the complete product of all descriptors of <= 2 tokens (3 spellings) x all names of <= 3 tokens over a 6-token alphabet.",
+   design="6/C19",
+   note="Descriptors reach the model through the XML reader (whitespace-separated), names through the host API.",
+   technique="property-based differential testing + exhaustive small-alphabet enumeration"),
+
  "C01": dict(
    level="exploration",
    text="Pure invariant check on the interpreter's own GlobalData.configuration, snapshotted after start-up, after every microstep and at every idle point of generated statecharts (parallel, history, finals, internal/targetless/multi-target transitions, three data models) under generated event sequences: legality per W3C 3.11 plus enter/exit stream invariants (no entry while active, no exit while inactive, exits before entries, stream consistent with snapshots).",
